@@ -51,7 +51,7 @@ pub fn run_c08(cx: &Ctx) -> i32 {
     let texts = space::texts(&alphabet, max_len);
     let tallies = par::run_workers(32, |_w, claimer| {
         engine::quiet_panics();
-        engine::set_sweep_horizons(300_000, 20_000);
+        engine::set_sweep_horizons(40_000, 5_000);
         let mut t = Tally::new();
         let mut states: BTreeSet<(usize, Option<usize>)> = BTreeSet::new();
         space.for_each(claimer, &mut |node, tag| {
@@ -281,7 +281,7 @@ pub fn run_c10(cx: &Ctx) -> i32 {
     let texts = space::texts(&alphabet, max_len);
     let tallies = par::run_workers(32, |_w, claimer| {
         engine::quiet_panics();
-        engine::set_sweep_horizons(300_000, 20_000);
+        engine::set_sweep_horizons(40_000, 5_000);
         let mut t = Tally::new();
         space.for_each(claimer, &mut |node, tag| {
             let facts = ast::facts(node);
@@ -308,6 +308,10 @@ pub fn run_c10(cx: &Ctx) -> i32 {
                     continue;
                 }
                 let matches: Vec<(usize, usize)> = fi.items.iter().map(|i| i.clone().unwrap()).collect();
+                if matches.iter().any(|&(s, e)| !(s <= e && e <= text.len() && text.is_char_boundary(s) && text.is_char_boundary(e))) {
+                    t.count("skipped_invalid_spans(left to C05)", 1);
+                    continue;
+                }
                 if matches.windows(2).any(|w| w[1].0 < w[0].1) {
                     continue; // overlapping matches: C08's violation; slicing would be meaningless
                 }
@@ -393,7 +397,7 @@ pub fn run_c11(cx: &Ctx) -> i32 {
     let templates: Vec<&str> = vec!["x", "$0", "$1", "${g1}", "$$", "<$0|$1>", ""];
     let tallies = par::run_workers(32, |_w, claimer| {
         engine::quiet_panics();
-        engine::set_sweep_horizons(300_000, 20_000);
+        engine::set_sweep_horizons(40_000, 5_000);
         let mut t = Tally::new();
         space.for_each(claimer, &mut |node, tag| {
             let facts = ast::facts(node);
@@ -432,6 +436,12 @@ pub fn run_c11(cx: &Ctx) -> i32 {
                     continue;
                 }
                 let caps: Vec<Vec<Option<(usize, usize)>>> = ci.items.iter().map(|i| i.clone().unwrap()).collect();
+                // invalid spans (C05's business) would make the model itself slice wrongly
+                let span_ok = |s: usize, e: usize| s <= e && e <= text.len() && text.is_char_boundary(s) && text.is_char_boundary(e);
+                if caps.iter().any(|g| g.is_empty() || g[0].is_none() || g.iter().flatten().any(|&(s, e)| !span_ok(s, e))) {
+                    t.count("skipped_invalid_spans(left to C05)", 1);
+                    continue;
+                }
                 let matches: Vec<(usize, usize)> = caps.iter().map(|g| g[0].unwrap()).collect();
                 if matches.windows(2).any(|w| w[1].0 < w[0].1) {
                     continue;
